@@ -31,6 +31,8 @@ SCHEMAS = {
     "div-threshold": ([_x, _p, _q], z3.Implies(_p > 0, (_x / _p >= _q) == (_x >= _q * _p))),
     "div-bounds": ([_x, _p], z3.Implies(_p > 0, z3.And(_p * (_x / _p) <= _x, _x < _p * (_x / _p) + _p))),
     "div-multiple": ([_x, _p], z3.Implies(_p > 0, (_x * _p) / _p == _x)),
+    # x * y is a multiple of p whenever y is: the residue is 0
+    "mod-multiple3": ([_x, _p, _q, _y], z3.Implies(z3.And(_p > 0, _y == _q * _p), (_x * _y) - _p * ((_x * _y) / _p) == 0)),
     # the same with the product given as a separate term r == p*q (e.g. 2**(a+b) for p = 2**a, q = 2**b)
     "mod-scale3": ([_x, _p, _q, _y], z3.Implies(z3.And(_p > 0, _q > 0, _y == _p * _q), (_x * _q) - _y * ((_x * _q) / _y) == _q * (_x - _p * (_x / _p)))),
     "div-scale3": ([_x, _p, _q, _y], z3.Implies(z3.And(_p > 0, _q > 0, _y == _p * _q), (_x * _q) / _y == _x / _p)),
